@@ -93,6 +93,22 @@ def run(ctx):
             if not ok:
                 ctx.disagreement("pred_succ/events", {"document": doc}, None, [r1, r2])
             why = spec_check(g, pred, succ, ev)
+            if why is None and i % 4 == 0 and len(g.demes) > 1:
+                # the views of a RENAMED copy of a graph whose views have just been computed (a swap of two names
+                # plus a fresh name) must be the views of that copy, not remembered ones
+                names = [d.name for d in g.demes]
+                mp = {names[0]: names[1], names[1]: names[0]}
+                if len(names) > 2:
+                    mp[names[2]] = names[2] + "_r"
+                try:
+                    g2 = g.rename_demes(mp)
+                    why2 = spec_check(g2, g2.predecessors(), g2.successors(), g2.discrete_demographic_events())
+                except Exception as e:  # noqa: BLE001
+                    why2 = f"a view of the renamed graph raises {type(e).__name__}"
+                ctx.count({"renamed_views": [d.name for d in g.demes], "map": mp}, True, tags=["views_after_rename"])
+                if why2:
+                    ctx.violation("ancestry views after rename_demes: " + why2, {"document": doc, "rename": mp},
+                                  python=py_repro(doc, f"(lambda h: (h.predecessors(), h.successors(), h.discrete_demographic_events()))((g.predecessors(), g.rename_demes({mp!r}))[1])"))
             if why:
                 ctx.violation("ancestry views: " + why, {"document": doc},
                               python=py_repro(doc, "g.predecessors(), g.successors(), g.discrete_demographic_events()"))
